@@ -108,7 +108,7 @@ def shard(seed, items, tier):
         e1, e2, e0 = res.get(c1.id), res.get(c2.id), res.get(c0.id)
         if e1 is None or e2 is None or e0 is None:
             continue
-        if rdh.budget_hit(e1) or rdh.budget_hit(e2) or rdh.budget_hit(e0):
+        if rdh.abandoned(e1) or rdh.abandoned(e2) or rdh.abandoned(e0):
             # non-termination is C13's subject (skip-less callbacks on truncated data); it makes the lists incomparable here
             sh.count('incomparable_budget_hits')
             continue
@@ -117,7 +117,7 @@ def shard(seed, items, tier):
             ref[name] = ml
     for name, cls, kind, c1, c2, plen, c0 in plan:
         e1, e2, e0 = res.get(c1.id), res.get(c2.id), res.get(c0.id)
-        if e1 is None or e2 is None or e0 is None or name not in ref or rdh.budget_hit(e1) or rdh.budget_hit(e2) or rdh.budget_hit(e0):
+        if e1 is None or e2 is None or e0 is None or name not in ref or rdh.abandoned(e1) or rdh.abandoned(e2) or rdh.abandoned(e0):
             continue
         ml = member_list(e1, e2)
         h0, h1 = headers_only(e0), headers_only(e1)
